@@ -1,0 +1,31 @@
+//go:build verif
+// +build verif
+
+package cli
+
+import (
+	"io"
+
+	"github.com/jawher/mow.cli/internal/verifhook"
+)
+
+// VerifSetExit replaces the process-exit function and returns a function restoring the previous one.
+func VerifSetExit(f func(code int)) (restore func()) {
+	old := exiter
+	exiter = f
+	return func() { exiter = old }
+}
+
+// VerifSetStreams replaces the output and error streams and returns a function restoring the previous ones.
+func VerifSetStreams(out, err io.Writer) (restore func()) {
+	oldOut, oldErr := stdOut, stdErr
+	stdOut, stdErr = out, err
+	return func() { stdOut, stdErr = oldOut, oldErr }
+}
+
+// VerifSetPoint installs the function called at every instrumented point and returns a function restoring the previous one.
+func VerifSetPoint(f func(site string)) (restore func()) {
+	old := verifhook.Hook
+	verifhook.Hook = f
+	return func() { verifhook.Hook = old }
+}
